@@ -34,7 +34,20 @@ def render : Ev → String
   | .valid w p who op v => s!"{if w then "valid_write" else "valid_read"} {showP p} {who} {op} -> {showV v}"
   | .fs fn w p => s!"fs {fn} {if w then "w" else "r"} {showP p}"
   | .mode b => if b then "master absent" else "master present"
+  | .edsave st n => s!"ed_save_name {showP st} -> ={showP n}"
+  | .nest g who args _ => s!"ncall {g} {who}" ++ String.join (args.map (fun t => " " ++ showP t))
   | .note s => s
+
+def renderN (who : String) : NEv → String
+  | .valid w p whoOk op v =>
+    s!"{if w then "valid_write" else "valid_read"} {showP p} {if whoOk then who else "?"} {op} -> {showV v}"
+  | .fs fn w p => s!"fs {fn} {if w then "w" else "r"} {showP p}"
+  | .note s => s
+
+/-- a nested call is printed as the block `ncall … / its lines / nend` -/
+def renderLines : Ev → List String
+  | .nest g who args inner => render (.nest g who args inner) :: inner.map (renderN who) ++ ["nend"]
+  | e => [render e]
 
 /-! ### parsing -/
 
@@ -53,7 +66,7 @@ def parseV (t : String) : Option Verdict :=
 def parseO (t : String) : Option (Option CStr) :=
   if t == "none" || t == "!err" then some none else (unbr t).map some
 
-def parsePolicy (t : String) : Option Policy :=
+def parsePolicy0 (t : String) : Option Policy :=
   if t == "deny" then some .deny
   else if t == "allow" then some .allow
   else if t == "echo" then some .echo
@@ -65,6 +78,18 @@ def parsePolicy (t : String) : Option Policy :=
   else if t.startsWith "raiseon=" then (unbr (t.drop 8).toString).map .raiseOn
   else if t.startsWith "odd=" then (unbr (t.drop 4).toString).map (fun w => .odd (unstr w))
   else none
+
+/-- `nested=[<efun>,<path>,<kind>[,<string>]]`: a re-entrant master that answers like `<kind>[=[<string>]]` -/
+def parsePolicy (t : String) : Option Policy :=
+  if t.startsWith "nested=" then
+    match unbr (t.drop 7).toString with
+    | none => none
+    | some body =>
+      match (unstr body).splitOn "," with
+      | [g, p, k] => (parsePolicy0 k).map (.nested g p.toList)
+      | [g, p, k, x] => (parsePolicy0 (k ++ "=[" ++ x ++ "]")).map (.nested g p.toList)
+      | _ => none
+  else parsePolicy0 t
 
 /-- implementation trace line -> event -/
 def parseEv (line : String) : Ev :=
@@ -84,6 +109,10 @@ def parseEv (line : String) : Ev :=
   | "il" :: l :: "->" :: es => match unbr l with
     | some l => .il l (es.map (fun t => if t == "-" then none else unbr t))
     | none => .note line
+  | ["ed_save_name", st, "->", n] =>
+    (match unbr st, (if n.startsWith "=" then unbr (n.drop 1).toString else none) with
+     | some st, some n => .edsave st n
+     | _, _ => .note line)
   | "call" :: f :: who :: args => .call f who (args.filterMap unbr)
   | [vk, p, who, op, "->", v] =>
     if vk == "valid_read" || vk == "valid_write" then
@@ -116,7 +145,7 @@ structure MState where
   out : List String := []     -- newest first
 
 def MState.emit (s : MState) (evs : List Ev) : MState :=
-  { s with out := (evs.map render).reverse ++ s.out }
+  { s with out := (evs.flatMap renderLines).reverse ++ s.out }
 
 def uLp (s : CStr) : Ev := .lp s (legalPath s)
 def uCvp (pol : Policy) (s : CStr) : Ev :=
@@ -133,7 +162,7 @@ def parseEdCmd (t : String) : Option EdCmd :=
   let a := arg.toList
   match c with
   | "a" => some (.a a) | "e" => some (.e a) | "E" => some (.E a) | "f" => some (.f a) | "r" => some (.r a)
-  | "w" => some (.w a) | "W" => some (.W a)
+  | "w" => some (.w a) | "W" => some (.W a) | "D" => some (.D a)
   | "x" => if a = [] then some .x else none
   | "q" => if a = [] then some .q else none
   | "Q" => if a = [] then some .Q else none
@@ -226,10 +255,37 @@ def runModel (lines : List String) : List String :=
 
 /-! ### judge mode -/
 
+def toNEv (who : String) : Ev → NEv
+  | .valid w p w' op v => .valid w p (w' == who) op v
+  | .fs fn w p => .fs fn w p
+  | e => .note (render e)
+
+structure PState where
+  out : List Ev := []                                           -- newest first
+  cur : Option (String × String × List CStr × List NEv) := none  -- open nested block (inner newest first)
+
+/-- lines → events; the lines between `ncall <efun> <who> [arg]…` and `nend` become ONE `Ev.nest`
+    (a block that is not closed — the nested call crashed or raised — ends with the trace) -/
+def parseStep (s : PState) (l : String) : PState :=
+  match s.cur with
+  | some (g, who, args, inner) =>
+    if l == "nend" then { out := .nest g who args inner.reverse :: s.out, cur := none }
+    else { s with cur := some (g, who, args, toNEv who (parseEv l) :: inner) }
+  | none =>
+    match toks l with
+    | "ncall" :: g :: who :: args => { s with cur := some (g, who, args.filterMap unbr, []) }
+    | _ => { s with out := parseEv l :: s.out }
+
+def parseTrace (ls : List String) : List Ev :=
+  let s := ls.foldl parseStep {}
+  (match s.cur with
+   | some (g, who, args, inner) => Ev.nest g who args inner.reverse :: s.out
+   | none => s.out).reverse
+
 def runJudge (body : List String) : List String :=
   let (_input, impl) := splitJudge body
   let crashes := impl.filter (fun l => l.startsWith "crash " || l.startsWith "sanitizer ")
-  match judgeEv (impl.map parseEv), crashes with
+  match judgeEv (parseTrace impl), crashes with
   | [], [] => ["ok"]
   | vs, cs => vs.map (fun v => s!"bad {v.kind} {v.detail}") ++ cs.map (fun c => s!"bad crash {c}")
 
